@@ -318,6 +318,36 @@ theorem C14_c_api_options_fit (fx fm : Bool) (nv nc : Nat) (pol : Policy) (bytes
   have h2 := C14_gen_c_api_capacity
   omega
 
+/-- **The number of values the C API copies** (`n = std::min(ao.options_.size(), cap); ao_c.n_options_ = (int)n; std::copy(begin, begin + n, ao_c.options_)` in
+`NLW2_SOLHandler_C_Impl::OnAMPLOptions`, re-translated from sol-handler-c-impl.h on every run): for every vector size below 2^31 the generated code yields
+`min size capacity` — never more than the array holds … -/
+theorem C14_gen_c_api_copy_count (size : Nat) (h : size < 2147483648) :
+    MpVerif.Gen.SolGuards.c_api_copy_count (size : Int) = .ret ((min size MpVerif.Gen.SolGuards.c_api_options_capacity : Nat) : Int) ∧
+    min size MpVerif.Gen.SolGuards.c_api_options_capacity ≤ MpVerif.Gen.SolGuards.c_api_options_capacity := by
+  refine ⟨?_, Nat.min_le_right _ _⟩
+  have hconv : ∀ v : Int, 0 ≤ v → v < 2147483648 → MpVerif.CSem.conv MpVerif.CSem.tI v = v := by
+    intro v h1 h2
+    simp only [MpVerif.CSem.conv, MpVerif.CSem.CTy.wrap, MpVerif.CSem.tI]
+    simp
+    omega
+  unfold MpVerif.Gen.SolGuards.c_api_copy_count MpVerif.Gen.SolGuards.sg_min_ul__ul_ul MpVerif.Gen.SolGuards.c_api_options_capacity
+  by_cases hc : (14 : Int) < (size : Int)
+  · have hm : min size 14 = 14 := by omega
+    simp [MpVerif.CSem.clt, hc, hm, MpVerif.CSem.Outcome.bind, hconv 14 (by omega) (by omega)]
+  · have hm : min size 14 = size := by omega
+    simp [MpVerif.CSem.clt, hc, hm, MpVerif.CSem.Outcome.bind, hconv (size : Int) (by omega) (by omega)]
+
+/-- … and for every options block the reader delivers (any file, format, declared size, handler) it is the whole block: `n_options_ = opts.length`, nothing is
+dropped and nothing is written outside `options_`. -/
+theorem C14_c_api_copies_whole_block (fx fm : Bool) (nv nc : Nat) (pol : Policy) (bytes : Bytes) (hs : SanePol pol) :
+    ∀ e ∈ (readSol fx fm nv nc pol bytes).evs, ∀ opts vb t, e = .options opts vb t →
+      MpVerif.Gen.SolGuards.c_api_copy_count (opts.length : Int) = .ret (opts.length : Int) := by
+  intro e he opts vb t h
+  have h1 := C14_c_api_options_fit fx fm nv nc pol bytes hs e he opts vb t h
+  have h2 := (C14_gen_c_api_copy_count opts.length (by
+    have := (C14_options_handed_to_handler fx fm nv nc pol bytes hs e he opts vb t h).2; omega)).1
+  rw [h2, Nat.min_eq_left h1]
+
 /-- … and every later use of the options (`z[1]`, `z[3]`) reads an entry that was stored -/
 theorem C14_options_index_in_bounds (inp r : Bytes) (o : Opts) (L : Nat)
     (h : optsText inp = .ok (o, r) ∨ optsBin L inp = .ok (o, r)) (i : Nat) (hi : i ≤ 3) :
